@@ -25,6 +25,14 @@ MODEL_B = """<?xml version="1.0" encoding="UTF-8"?>
 <informationRequirement><requiredInput href="#_Txt"/></informationRequirement>
 <literalExpression><text>[matches(Txt, "^[a-z]+[0-9]*$"), replace(Txt, "[aeiou]", "#"), split(Txt, "[0-9]"), string length(Txt)]</text></literalExpression>
 </decision>
+<decision name="RxPlain" id="_RxPlain"><variable name="RxPlain"/>
+<informationRequirement><requiredInput href="#_Txt"/></informationRequirement>
+<literalExpression><text>[replace(Txt, ".", "*"), replace(Txt, "A", "b"), replace(Txt, "a+", "+"), matches(Txt, "ABC"), matches(Txt, "a.c"), matches(Txt, "h E"), split(Txt, "B"), split(Txt, "."), substring(Txt, 2), number(Txt + "1,5", ".", ",")]</text></literalExpression>
+</decision>
+<decision name="RxFlags" id="_RxFlags"><variable name="RxFlags"/>
+<informationRequirement><requiredInput href="#_Txt"/></informationRequirement>
+<literalExpression><text>[replace(Txt, ".", "*", "q"), replace(Txt, "A", "b", "i"), replace(Txt, "a+", "+", "q"), matches(Txt, "ABC", "i"), matches(Txt, "a.c", "s"), matches(Txt, "h E", "xi"), split(Txt, "b"), split(Txt, "[.]"), substring(Txt, 2, 1), number(Txt + "1,5", ",", ".")]</text></literalExpression>
+</decision>
 <decision name="Numeric" id="_Numeric"><variable name="Numeric"/>
 <informationRequirement><requiredInput href="#_Num"/></informationRequirement>
 <literalExpression><text>[decimal(Num / 3, 10), Num ** 2, sqrt(Num * Num), exp(1) * Num, log(Num * Num + 1), modulo(Num, 7), Num * 1.000000000000000000000000000000001]</text></literalExpression>
@@ -71,13 +79,13 @@ MODEL_B = """<?xml version="1.0" encoding="UTF-8"?>
 
 
 def build_workload(rng):
-    models, calls, services = [], [], [[0, "Svc"], [0, "Iter"], [0, "Deep"]]
+    models, calls, services = [], [], [[0, "Svc"], [0, "Iter"], [0, "Deep"], [0, "RxPlain"], [0, "RxFlags"]]
     models.append(MODEL_B)
-    txts = ["abc123", "hello", "x9y8z7", "żółć", "aeiou", "UPPER", "a1", ""]
+    txts = ["abc123", "hello", "x9y8z7", "żółć", "aeiou", "UPPER", "a1", "", "a.c", "A\nbC", "aa.b+"]
     days = ["2021-03-27", "2020-02-29", "1999-12-31", "2021-10-31", "2024-07-15"]
     for k in range(14):
         inp = [["Txt", {"s": rng.choice(txts)}], ["Num", {"n": str(rng.randint(1, 10 ** 6)) + "." + str(rng.randint(0, 999))}], ["Day", {"s": rng.choice(days)}]]
-        for inv in ("Regex", "Numeric", "Temporal", "Iter", "Deep", "All", "Svc"):
+        for inv in ("Regex", "RxPlain", "RxFlags", "Numeric", "Temporal", "Iter", "Deep", "All", "Svc"):
             calls.append([0, inv, inp])
     # generated graphs: nested decisions + BKMs + services + tables (read locks nest several levels deep)
     for k, shape in enumerate(["mixed", "service-and-direct", "bkm-chain"]):
@@ -105,7 +113,7 @@ def run(rep, tier, seed):
     reps = 40 if tier == "quick" else 1500
     tsan_reps = 4 if tier == "quick" else 40
     rep.rule = (
-        "%d repetitions (thread counts 2, 3, 4, 8, 16 in turn; 60-400 calls per thread) of seeded call permutations over 4 shared evaluators (regular-expression, numeric, temporal-with-zones decisions, a decision made of for / some / every / filter / sort / function literal / context / named invocation / if / in / between / instance of, a decision that recurses 40-60 levels deep through a knowledge model and through a function literal, "
+        "%d repetitions (thread counts 2, 3, 4, 8, 16 in turn; 60-400 calls per thread) of seeded call permutations over 4 shared evaluators (regular-expression decisions incl. two that use the same patterns with and without flags / optional arguments, numeric, temporal-with-zones decisions, a decision made of for / some / every / filter / sort / function literal / context / named invocation / if / in / between / instance of, a decision that recurses 40-60 levels deep through a knowledge model and through a function literal, "
         "a boxed context using a knowledge model, a decision service; generated graphs with nested decisions, BKM chains, tables and services), with seeded yields / spins / sleeps at the hook between lock "
         "acquisitions; then 6 hammer rounds per repetition (all threads call one invocable with 2-4 alternating inputs, identical inputs recurring, no delays); each repetition ends with 3 rendezvous rounds (K = thread count evaluations held inside the evaluator at once); %d repetitions on the ThreadSanitizer build. Distinct = order signature of "
         "the logical-clock event log; non-trivial = repetition in which calls of different threads overlapped." % (reps, tsan_reps)
@@ -139,6 +147,9 @@ def run(rep, tier, seed):
             res = res2
         if "panic" in res:
             rep.violation(panic_signature(res["panic"]), "panic in the threaded run: %s" % res["panic"].get("msg"), one)
+            continue
+        if "panic_in_single_call" in res:
+            rep.violation("panic-in-single-call", "a call made alone on a fresh evaluator panicked: %s" % res["panic_in_single_call"], one)
             continue
         if "calls" not in res:
             rep.violation(crash_signature(res, "c20"), "threaded run died: %s" % json.dumps(res)[:400], one)
